@@ -28,8 +28,10 @@ structure SameData (c c' : Ctx) : Prop where
   cid : c'.cid = c.cid
   peerCids : c'.peerCids = c.peerCids
   th : c'.th = c.th
+  streams : c'.streams = c.streams
+  foldCount : c'.foldStreamCount = c.foldStreamCount
 
-theorem SameData.rfl' (c : Ctx) : SameData c c := ⟨rfl, rfl, rfl, rfl, rfl, rfl, rfl, rfl, rfl, rfl, rfl⟩
+theorem SameData.rfl' (c : Ctx) : SameData c c := ⟨rfl, rfl, rfl, rfl, rfl, rfl, rfl, rfl, rfl, rfl, rfl, rfl, rfl⟩
 
 /-! ### the primitive updates, named -/
 
@@ -64,6 +66,45 @@ def updRemoteCall (t : Tetraplet) (c : Ctx) : Ctx :=
   { c with nextPeerPks := c.nextPeerPks ++ [t.peerPk], subgraphComplete := false,
            th := c.th.meetCallEnd (.requestSentBy (.peerId c.currentPeerId)) }
 
+/-- only the stream store (and control fields) changed -/
+structure SameButStreams (c c' : Ctx) : Prop where
+  next : c'.nextPeerPks = c.nextPeerPks
+  init : c'.initPeerId = c.initPeerId
+  me : c'.currentPeerId = c.currentPeerId
+  ts : c'.timestamp = c.timestamp
+  ttl : c'.ttl = c.ttl
+  lcid : c'.lastCallRequestId = c.lastCallRequestId
+  results : c'.callResults = c.callResults
+  reqs : c'.callRequests = c.callRequests
+  cid : c'.cid = c.cid
+  peerCids : c'.peerCids = c.peerCids
+  th : c'.th = c.th
+  foldCount : c'.foldStreamCount = c.foldStreamCount
+
+/-- the fold-related trace-handler transitions (they push or rewrite `fold` entries only) -/
+inductive FoldOp (th th' : TraceHandler) : Prop where
+  | foldStart (id : Nat) (h : th.meetFoldStart id = .ok th')
+  | iterationStart (id pos : Nat) (h : th.meetIterationStart id pos = .ok th')
+  | iterationEnd (id : Nat) (h : th.meetIterationEnd id = .ok th')
+  | backIterator (id : Nat) (h : th.meetBackIterator id = .ok th')
+  | generationEnd (id : Nat) (h : th.meetGenerationEnd id = .ok th')
+  | foldEnd (id : Nat) (h : th.meetFoldEnd id = .ok th')
+
+/-- first canonicalisation at the designated peer: snapshot and tracking in the CID stores -/
+def updCanonTrack (env : Env) (stream : String) (streamPos : Nat) (peerId : String) (c : Ctx) : (CanonStream × Cid) × Ctx :=
+  let values := match c.getStream stream streamPos with
+    | some s => s.all
+    | none => []
+  let cs : CanonStream := ⟨values, { peerPk := peerId }⟩
+  let (cid, st) := trackCanonResult env c.cid cs
+  ((cs, cid), { c with cid := st })
+
+/-- registering the canon id, binding the canon stream and pushing `Executed(cid)` -/
+def updCanonFinish (canonName : String) (cs : CanonStream) (cid : Cid) (registerFor : String) (c : Ctx) : ER Ctx := do
+  let sc ← c.scalars.setCanonValue canonName ⟨cs, cid⟩
+  let c := c.recordCanonCid registerFor cid
+  pure { c with scalars := sc, th := c.th.meetCanonEnd (.executed cid) }
+
 structure ExecPrims (R : Ctx → Ctx → Prop) : Prop where
   pre : Preorder' R
   /-- control-only updates (scalars, error slots, completeness flag) -/
@@ -79,35 +120,113 @@ structure ExecPrims (R : Ctx → Ctx → Prop) : Prop where
   serviceResult : ∀ env result t ah out c c', updServiceResult env result t ah out c = .ok c' → R c c'
   prevFailed : ∀ t cid c, R c (updPrevFailed t cid (.failed cid) c)
   dropResult : ∀ key c, R c (updDropResult key c)
-  prevExecutedBind : ∀ env c value ah t pos out c', populateFromData env c value ah t pos out = .ok c' → R c c'
+  prevExecutedBind : ∀ env c value ah t pos out src c', populateFromData env c value ah t pos out src = .ok c' → R c c'
   prevExecuted : ∀ t value c, R c (updPrevExecuted t value c)
   /-- a local request is issued (only for `t.peerPk = c.currentPeerId`) -/
   issue : ∀ t args c c', t.peerPk = c.currentPeerId → issueRequest t args c = .ok c' → R c c'
   /-- forwarding to another peer (only for `t.peerPk ≠ c.currentPeerId`) -/
   remote : ∀ t c, t.peerPk ≠ c.currentPeerId → R c (updRemoteCall t c)
+  /-- stream-store updates: appending a value, moving a fold cursor, opening a `new` scope -/
+  streamUpd : ∀ c c', SameButStreams c c' → R c c'
+  thApStart : ∀ c met th', c.th.meetApStart = .ok (met, th') → R c { c with th := th' }
+  pushAp : ∀ c, R c { c with th := c.th.meetApEnd [generationStub] }
+  thCanonStart : ∀ c met th', c.th.meetCanonStart = .ok (met, th') → R c { c with th := th' }
+  canonTrack : ∀ env stream pos peerId c, R c (updCanonTrack env stream pos peerId c).2
+  canonFinish : ∀ name cs cid reg c c', updCanonFinish name cs cid reg c = .ok c' → R c c'
+  /-- a canon request found in the data is re-emitted; a canon addressed elsewhere is marked as sent -/
+  canonPushRequest : ∀ c sender, R c { c with subgraphComplete := false, th := c.th.meetCanonEnd (.requestSentBy sender) }
+  canonRemote : ∀ c peerId, peerId ≠ c.currentPeerId →
+    R c { c with subgraphComplete := false, nextPeerPks := c.nextPeerPks ++ [peerId], th := c.th.meetCanonEnd (.requestSentBy c.currentPeerId) }
+  foldCount : ∀ c, R c { c with foldStreamCount := c.foldStreamCount + 1 }
+  thFoldOp : ∀ c th', FoldOp c.th th' → R c { c with th := th' }
+  /-- closing a `new $stream` scope: the instance is dropped and its generations are written into the trace -/
+  scopeEnd : ∀ name c c', c.streamScopeEnd name = .ok c' → R c c'
 
 theorem sameData_withScalars {c c' : Ctx} {g : Scalars → ER Scalars} (h : withScalars c g = .ok c') : SameData c c' := by
   unfold withScalars at h
   cases hg : g c.scalars with
-  | ok sc => simp [hg, Res.bind] at h; subst h; exact ⟨rfl, rfl, rfl, rfl, rfl, rfl, rfl, rfl, rfl, rfl, rfl⟩
+  | ok sc => simp [hg, Res.bind] at h; subst h; exact ⟨rfl, rfl, rfl, rfl, rfl, rfl, rfl, rfl, rfl, rfl, rfl, rfl, rfl⟩
   | error e => simp [hg, Res.bind] at h
   | panic s => simp [hg, Res.bind] at h
 
 theorem sameData_withScalarsRet {α} {c c' : Ctx} {a : α} {g : Scalars → ER (α × Scalars)} (h : withScalarsRet c g = .ok (a, c')) : SameData c c' := by
   unfold withScalarsRet at h
   cases hg : g c.scalars with
-  | ok p => obtain ⟨a', sc⟩ := p; simp [hg, Res.bind] at h; obtain ⟨_, rfl⟩ := h; exact ⟨rfl, rfl, rfl, rfl, rfl, rfl, rfl, rfl, rfl, rfl, rfl⟩
+  | ok p => obtain ⟨a', sc⟩ := p; simp [hg, Res.bind] at h; obtain ⟨_, rfl⟩ := h; exact ⟨rfl, rfl, rfl, rfl, rfl, rfl, rfl, rfl, rfl, rfl, rfl, rfl, rfl⟩
   | error e => simp [hg, Res.bind] at h
   | panic s => simp [hg, Res.bind] at h
+
+theorem res_bind_ok'' {ε α β : Type} {x : Res ε α} {f : α → Res ε β} {b : β} (h : (x >>= f) = .ok b) :
+    ∃ a, x = .ok a ∧ f a = .ok b := by
+  cases x with
+  | ok a => exact ⟨a, rfl, h⟩
+  | error e => cases h
+  | panic s => cases h
+
+theorem sameButStreams_setStream (c : Ctx) (name : String) (pos : Nat) (s : Stream) : SameButStreams c (c.setStream name pos s) := by
+  unfold Ctx.setStream
+  split
+  · exact ⟨rfl, rfl, rfl, rfl, rfl, rfl, rfl, rfl, rfl, rfl, rfl, rfl⟩
+  · split <;> exact ⟨rfl, rfl, rfl, rfl, rfl, rfl, rfl, rfl, rfl, rfl, rfl, rfl⟩
+
+theorem sameButStreams_scopeStart (c : Ctx) (name : String) (l r : Nat) : SameButStreams c (c.streamScopeStart name l r) := by
+  unfold Ctx.streamScopeStart
+  split <;> exact ⟨rfl, rfl, rfl, rfl, rfl, rfl, rfl, rfl, rfl, rfl, rfl, rfl⟩
+
+theorem sameButStreams_addStreamValue {c c' : Ctx} {v : ValueAggregate} {name : String} {g : Generation} {pos : Nat}
+    (h : c.addStreamValue v name g pos = .ok c') : SameButStreams c c' := by
+  unfold Ctx.addStreamValue at h
+  split at h
+  · rename_i s0 _
+    cases hs : Stream.addValue s0 v g with
+    | ok s' =>
+      rw [show (do let s' ← s0.addValue v g; pure (c.setStream name pos s') : ER Ctx) = (s0.addValue v g).bind fun s' => .ok (c.setStream name pos s') from rfl, hs] at h
+      injection h with h; subst h; exact sameButStreams_setStream c name pos s'
+    | error e =>
+      rw [show (do let s' ← s0.addValue v g; pure (c.setStream name pos s') : ER Ctx) = (s0.addValue v g).bind fun s' => .ok (c.setStream name pos s') from rfl, hs] at h
+      cases h
+    | panic p =>
+      rw [show (do let s' ← s0.addValue v g; pure (c.setStream name pos s') : ER Ctx) = (s0.addValue v g).bind fun s' => .ok (c.setStream name pos s') from rfl, hs] at h
+      cases h
+  · obtain ⟨s', _, h2⟩ := res_bind_ok'' h
+    injection h2 with h2; subst h2
+    exact ⟨rfl, rfl, rfl, rfl, rfl, rfl, rfl, rfl, rfl, rfl, rfl, rfl⟩
+
+theorem rel_liftTH_of {R : Ctx → Ctx → Prop} {α : Type} (hR : Preorder' R) (i : Instr) (f : TraceHandler → TR (α × TraceHandler))
+    (h : ∀ c a th', f c.th = .ok (a, th') → R c { c with th := th' }) : Rel R (liftTH i f) := by
+  unfold liftTH
+  apply rel_stateER hR
+  intro c a c' hc
+  cases hf : f c.th with
+  | ok p =>
+    obtain ⟨a', th'⟩ := p
+    simp [hf, traceToExec, Res.mapErr, Res.bind] at hc
+    obtain ⟨_, rfl⟩ := hc
+    exact h c a' th' hf
+  | error e => simp [hf, traceToExec, Res.mapErr, Res.bind] at hc
+  | panic s => simp [hf, traceToExec, Res.mapErr, Res.bind] at hc
+
+theorem rel_liftTH'_of {R : Ctx → Ctx → Prop} (hR : Preorder' R) (i : Instr) (f : TraceHandler → TR TraceHandler)
+    (h : ∀ c th', f c.th = .ok th' → R c { c with th := th' }) : Rel R (liftTH' i f) := by
+  unfold liftTH'
+  apply rel_liftTH_of hR
+  intro c a th' hc
+  cases hf : f c.th with
+  | ok th'' =>
+    simp [hf, Res.bind] at hc
+    subst hc
+    exact h c th'' hf
+  | error e => simp [hf, Res.bind] at hc
+  | panic s => simp [hf, Res.bind] at hc
 
 section
 variable {R : Ctx → Ctx → Prop} (P : ExecPrims R)
 include P
 
-theorem ep_inc (c : Ctx) : R c { c with subgraphComplete := false } := P.ctl _ _ ⟨rfl, rfl, rfl, rfl, rfl, rfl, rfl, rfl, rfl, rfl, rfl⟩
+theorem ep_inc (c : Ctx) : R c { c with subgraphComplete := false } := P.ctl _ _ ⟨rfl, rfl, rfl, rfl, rfl, rfl, rfl, rfl, rfl, rfl, rfl, rfl, rfl⟩
 
 theorem ep_setErrors (c : Ctx) (e : CatchableErr) (i : String) (t : Option Tetraplet) (b : Bool) : R c (c.setErrors e i t b) := by
-  apply P.ctl; unfold Ctx.setErrors; exact ⟨rfl, rfl, rfl, rfl, rfl, rfl, rfl, rfl, rfl, rfl, rfl⟩
+  apply P.ctl; unfold Ctx.setErrors; exact ⟨rfl, rfl, rfl, rfl, rfl, rfl, rfl, rfl, rfl, rfl, rfl, rfl, rfl⟩
 
 theorem ep_setErrorsOf (e : ExecErr) (i : Instr) (c : Ctx) : R c (c.setErrorsOf e i) := by
   unfold Ctx.setErrorsOf
@@ -234,7 +353,7 @@ theorem ep_handlePrevState (env : Env) (met : MetCallResult) (t : Tetraplet) (ah
     constructor
     · apply rel_bind P.pre (ep_unwrapHash P _ _); intro h
       apply rel_bind P.pre
-      · apply rel_modifyER P.pre; intro c c' hc; exact P.prevExecutedBind _ _ _ _ _ _ _ _ hc
+      · apply rel_modifyER P.pre; intro c c' hc; exact P.prevExecutedBind _ _ _ _ _ _ _ _ _ hc
       · intro _
         apply rel_bind P.pre
         · apply rel_modifyCtx; intro c; exact P.prevExecuted t value c
@@ -311,7 +430,7 @@ theorem ep_execCall (env : Env) (i : Instr) (p s f : Value) (args : List Value) 
       · exact rel_joinable P.pre (rel_onError P.pre (ep_resolvedExecute P _ _ _ _ _) (ep_callSetErrors P i _)) (ep_inc P)
       · intro _; exact rel_pure P.pre _
 
-macro "ctlstep" : tactic => `(tactic| (apply ExecPrims.ctl (by assumption); exact ⟨rfl, rfl, rfl, rfl, rfl, rfl, rfl, rfl, rfl, rfl, rfl⟩))
+macro "ctlstep" : tactic => `(tactic| (apply ExecPrims.ctl (by assumption); exact ⟨rfl, rfl, rfl, rfl, rfl, rfl, rfl, rfl, rfl, rfl, rfl, rfl, rfl⟩))
 
 theorem ep_failWithErrorObject (v : JVal) (t : Option Tetraplet) (p : Provenance) : Rel R (failWithErrorObject v t p) := by
   unfold failWithErrorObject
@@ -352,7 +471,7 @@ theorem ep_xorEnterRight (e : CatchableErr) (c : Ctx) : R c (xorEnterRight e c) 
 theorem ep_xorLeaveRight (b : Bool) (c : Ctx) : R c (xorLeaveRight b c) := by
   apply P.ctl
   unfold xorLeaveRight
-  refine ⟨?_, ?_, ?_, ?_, ?_, ?_, ?_, ?_, ?_, ?_, ?_⟩ <;> (simp only []; split <;> split <;> rfl)
+  refine ⟨?_, ?_, ?_, ?_, ?_, ?_, ?_, ?_, ?_, ?_, ?_, ?_, ?_⟩ <;> (simp only []; split <;> split <;> rfl)
 
 theorem ep_liftTH'_parStart (i : Instr) : Rel R (liftTH' i (fun th => th.meetParStart)) := by
   unfold liftTH' liftTH
@@ -395,6 +514,129 @@ theorem ep_execSubgraph (env : Env) (fuel : Nat) (ih : ∀ i, Rel R (exec env fu
       exact rel_pure P.pre _
     · exact rel_bind P.pre (ep_makeSubgraphIncomplete P) fun _ => rel_throwE P.pre _
     · exact rel_panicM P.pre _
+
+theorem ep_execApStream (i : Instr) (arg : Value) (name : String) (pos : Nat) : Rel R (execApStream i arg name pos) := by
+  unfold execApStream
+  apply rel_bind P.pre (rel_joinable P.pre (rel_readER P.pre _) (ep_inc P)); intro r
+  split
+  · exact rel_pure P.pre _
+  · apply rel_bind P.pre (rel_liftTH_of P.pre _ _ (fun c a th' h => P.thApStart c a th' h)); intro met
+    apply rel_bind P.pre
+    · apply rel_modifyER P.pre
+      intro c c' h
+      exact P.streamUpd c c' (sameButStreams_addStreamValue h)
+    · intro _
+      exact rel_modifyCtx fun c => P.pushAp c
+
+theorem ep_canonFinish (name : String) (cs : CanonStream) (cid : Cid) (reg : String) : Rel R (canonFinish name cs cid reg) := by
+  unfold canonFinish
+  exact rel_modifyER P.pre fun c c' h => P.canonFinish name cs cid reg c c' h
+
+theorem ep_createCanonFirstTime (env : Env) (name stream : String) (pos : Nat) (peerId : String) :
+    Rel R (createCanonFirstTime env name stream pos peerId) := by
+  intro c
+  have h1 : (createCanonFirstTime env name stream pos peerId) c =
+      (canonFinish name (updCanonTrack env stream pos peerId c).1.1 (updCanonTrack env stream pos peerId c).1.2 peerId)
+        (updCanonTrack env stream pos peerId c).2 := rfl
+  rw [h1]
+  exact P.pre.trans (P.canonTrack env stream pos peerId c) (ep_canonFinish P _ _ _ _ _)
+
+theorem ep_execCanon (env : Env) (i : Instr) (peer : Value) (stream : String) (pos : Nat) (name : String) :
+    Rel R (execCanon env i peer stream pos name) := by
+  unfold execCanon
+  apply rel_bind P.pre (rel_liftTH_of P.pre _ _ (fun c a th' h => P.thCanonStart c a th' h)); intro met
+  split
+  · -- executed
+    unfold canonExecuted
+    apply rel_bind P.pre (rel_readER P.pre _); intro cs
+    exact ep_canonFinish P _ _ _ _
+  · -- request found in the data
+    apply rel_bind P.pre (rel_readER P.pre _); intro peerId
+    apply rel_bind P.pre (rel_readCtx P.pre _); intro me
+    split
+    · exact rel_modifyCtx fun c => P.canonPushRequest c _
+    · exact ep_createCanonFirstTime P env name stream pos peerId
+  · -- no state yet
+    apply rel_bind P.pre (rel_joinable P.pre (rel_readER P.pre _) (ep_inc P)); intro r
+    split
+    · exact rel_pure P.pre _
+    · rename_i peerId
+      intro c
+      show R c ((M.bind (readCtx (·.currentPeerId)) _) c).2
+      simp only [M.bind, readCtx]
+      split
+      · rename_i hne
+        exact P.canonRemote c peerId (by intro h; simp [h] at hne)
+      · exact ep_createCanonFirstTime P env name stream pos peerId c
+
+theorem ep_maybeTH (i : Instr) (fs : FoldState) (f : Nat → TraceHandler → TR TraceHandler)
+    (hf : ∀ id th th', f id th = .ok th' → FoldOp th th') : Rel R (maybeTH i fs f) := by
+  unfold maybeTH
+  split
+  · rename_i id _
+    exact rel_liftTH'_of P.pre _ _ (fun c th' h => P.thFoldOp c th' (hf id _ _ h))
+  · exact rel_pure P.pre _
+
+theorem ep_nextMarkBackIteration (iterator : String) : Rel R (nextMarkBackIteration iterator) := by
+  unfold nextMarkBackIteration
+  apply rel_modifyER P.pre
+  intro c c' h
+  cases hg : c.scalars.getIterable iterator with
+  | ok fs =>
+    simp only [hg, Res.bind] at h
+    split at h
+    · split at h
+      · injection h with h; subst h; ctlstep
+      · injection h with h; subst h; exact P.pre.refl _
+    · injection h with h; subst h; exact P.pre.refl _
+  | error e => simp [hg, Res.bind] at h
+  | panic p => simp [hg, Res.bind] at h
+
+theorem ep_foldStreamGet (name : String) (pos : Nat) : Rel R (foldStreamGet name pos) := by
+  unfold foldStreamGet; exact rel_readER P.pre _
+
+theorem ep_setStream (name : String) (pos : Nat) (s : Stream) (c : Ctx) : R c (c.setStream name pos s) :=
+  P.streamUpd _ _ (sameButStreams_setStream c name pos s)
+
+theorem ep_execFoldIterations (env : Env) (fuel : Nat) (ih : ∀ i, Rel R (exec env fuel i)) (i : Instr) (iterator : String)
+    (body : Instr) (last : Option Instr) (foldId : Nat) :
+    ∀ (l : List (List ValueAggregate)) (acc : Bool), Rel R (execFoldIterations env fuel i iterator body last foldId l acc)
+  | [], acc => by unfold execFoldIterations; exact rel_pure P.pre _
+  | vals :: rest, acc => by
+    unfold execFoldIterations
+    split
+    · exact ep_execFoldIterations env fuel ih i iterator body last foldId rest acc
+    · apply rel_bind P.pre (rel_liftTH'_of P.pre _ _ (fun c th' h => P.thFoldOp c th' (.iterationStart _ _ h))); intro _
+      apply rel_bind P.pre
+      · exact rel_modifyER P.pre fun c c' h => P.ctl _ _ (sameData_withScalars h)
+      · intro _
+        apply rel_bind P.pre (rel_tryM (ih _)); intro res
+        apply rel_bind P.pre
+        · exact rel_modifyER P.pre fun c c' h => P.ctl _ _ (sameData_withScalars h)
+        · intro _
+          apply rel_bind P.pre
+          · unfold throwIfNotCatchable
+            split
+            · exact rel_pure P.pre _
+            · exact rel_pure P.pre _
+            · exact rel_reraise P.pre _
+          · intro _
+            apply rel_bind P.pre (rel_liftTH'_of P.pre _ _ (fun c th' h => P.thFoldOp c th' (.generationEnd _ h))); intro _
+            apply rel_bind P.pre (rel_readCtx P.pre _); intro complete
+            exact ep_execFoldIterations env fuel ih i iterator body last foldId rest _
+
+theorem ep_execFoldStreamLoop (env : Env) (fuel : Nat) (ih : ∀ i, Rel R (exec env fuel i)) (i : Instr) (stream : String)
+    (pos : Nat) (iterator : String) (body : Instr) (last : Option Instr) (foldId : Nat) :
+    ∀ (n : Nat) (st : Option (List (List ValueAggregate))) (cur : StreamCursor) (acc : Bool),
+      Rel R (execFoldStreamLoop env fuel n i stream pos iterator body last foldId st cur acc)
+  | n, none, cur, acc => by unfold execFoldStreamLoop; exact rel_pure P.pre _
+  | 0, some l, cur, acc => by unfold execFoldStreamLoop; exact rel_throwE P.pre _
+  | n + 1, some l, cur, acc => by
+    unfold execFoldStreamLoop
+    apply rel_bind P.pre (ep_execFoldIterations P env fuel ih i iterator body last foldId l acc); intro acc'
+    apply rel_bind P.pre (ep_foldStreamGet P _ _); intro s
+    apply rel_bind P.pre (rel_modifyCtx fun c => ep_setStream P _ _ _ c); intro _
+    exact ep_execFoldStreamLoop env fuel ih i stream pos iterator body last foldId n _ _ _
 
 theorem ep_execInner (env : Env) (fuel : Nat) (ih : ∀ i, Rel R (exec env fuel i)) (i : Instr) :
     Rel R (execInner env fuel i) := by
@@ -451,7 +693,11 @@ theorem ep_execInner (env : Env) (fuel : Nat) (ih : ∀ i, Rel R (exec env fuel 
     · exact rel_pure P.pre _
     · exact ih _
     · exact rel_throwE P.pre _
-  · exact ep_execAp P _ _
+  · -- ap
+    split
+    · exact ep_execApStream P _ _ _ _
+    · exact ep_execAp P _ _
+  · exact ep_execCanon P _ _ _ _ _ _
   · exact ep_execFail P _
   · -- fold scalar
     apply rel_bind P.pre (rel_joinable P.pre (rel_readER P.pre _) (ep_inc P)); intro r
@@ -466,22 +712,30 @@ theorem ep_execInner (env : Env) (fuel : Nat) (ih : ∀ i, Rel R (exec env fuel 
         · exact rel_modifyER P.pre fun c c' h => hsc h
         · intro _; exact rel_reraise P.pre _
   · -- next
+    apply rel_bind P.pre (rel_readER P.pre _); intro fs0
+    apply rel_bind P.pre (ep_maybeTH P _ _ _ (fun id th th' h => .iterationEnd id h)); intro _
     apply rel_bind P.pre
     · exact rel_stateER P.pre fun c a c' h => hscr h
     · intro r
       split
-      · apply rel_bind P.pre (rel_readER P.pre _); intro fs
+      · apply rel_bind P.pre (ep_maybeTH P _ _ _ (fun id th th' h => .backIterator id h)); intro _
+        apply rel_bind P.pre (rel_readER P.pre _); intro fs
         split
         · apply rel_bind P.pre
           · apply rel_modifyCtx; intro c; ctlstep
           · intro _; exact ih _
-        · exact rel_pure P.pre _
-      · apply rel_bind P.pre (rel_tryM (ih _)); intro res
+        · exact ep_nextMarkBackIteration P _
+      · rename_i fs
+        apply rel_bind P.pre (rel_readER P.pre _); intro item
+        apply rel_bind P.pre (ep_maybeTH P _ _ _ (fun id th th' h => .iterationStart id _ h)); intro _
+        apply rel_bind P.pre (rel_tryM (ih _)); intro res
         apply rel_bind P.pre
         · exact rel_modifyER P.pre fun c c' h => hsc h
         · intro _
           split
-          · exact rel_modifyER P.pre fun c c' h => hsc h
+          · apply rel_bind P.pre
+            · exact rel_modifyER P.pre fun c c' h => hsc h
+            · intro _; exact ep_maybeTH P _ _ _ (fun id th th' h => .backIterator id h)
           · exact rel_reraise P.pre _
   · -- new
     split
@@ -497,7 +751,52 @@ theorem ep_execInner (env : Env) (fuel : Nat) (ih : ∀ i, Rel R (exec env fuel 
             · exact rel_pure P.pre _
             · apply rel_bind P.pre (rel_readCtx P.pre _); intro _; exact rel_throwE P.pre _
           · exact rel_reraise P.pre _
+    · -- new $stream
+      apply rel_bind P.pre
+      · apply rel_modifyCtx; intro c
+        exact P.streamUpd _ _ (sameButStreams_scopeStart c _ _ _)
+      · intro _
+        apply rel_bind P.pre (rel_tryM (ih _)); intro res
+        apply rel_bind P.pre
+        · apply rel_tryM
+          exact rel_modifyER P.pre fun c c' h => P.scopeEnd _ c c' h
+        · intro ep
+          split
+          · exact rel_pure P.pre _
+          · exact rel_reraise P.pre _
+          · exact rel_reraise P.pre _
+    · -- new #canon
+      apply rel_bind P.pre
+      · apply rel_modifyCtx; intro c; ctlstep
+      · intro _
+        apply rel_bind P.pre (rel_tryM (ih _)); intro res
+        apply rel_bind P.pre
+        · unfold newLeaveCanon; exact rel_stateER P.pre fun c a c' h => hscr h
+        · intro ok
+          split
+          · split
+            · exact rel_pure P.pre _
+            · apply rel_bind P.pre (rel_readCtx P.pre _); intro _; exact rel_throwE P.pre _
+          · exact rel_reraise P.pre _
     · exact rel_throwE P.pre _
+  · -- fold over a stream
+    apply rel_bind P.pre (rel_readCtx P.pre _); intro ex
+    split
+    · exact ep_makeSubgraphIncomplete P
+    · apply rel_bind P.pre
+      · apply rel_stateER P.pre
+        intro c a c' h
+        injection h with h; injection h with _ h; subst h
+        exact P.foldCount c
+      · intro foldId
+        apply rel_bind P.pre (rel_liftTH'_of P.pre _ _ (fun c th' h => P.thFoldOp c th' (.foldStart _ h))); intro _
+        apply rel_bind P.pre (ep_foldStreamGet P _ _); intro s
+        apply rel_bind P.pre (rel_modifyCtx fun c => ep_setStream P _ _ _ c); intro _
+        apply rel_bind P.pre (ep_execFoldStreamLoop P env fuel ih _ _ _ _ _ _ _ _ _ _ _); intro complete
+        apply rel_bind P.pre
+        · apply rel_modifyCtx; intro c; ctlstep
+        · intro _
+          exact rel_liftTH'_of P.pre _ _ (fun c th' h => P.thFoldOp c th' (.foldEnd _ h))
   · exact rel_throwE P.pre _
 
 /-- **The generic invariant theorem**: any preorder preserved by the primitive updates relates the
